@@ -33,6 +33,11 @@ type PBad struct {
 	P int
 	C chan int
 }
+// PBadJSON encodes itself, wrongly: what its MarshalJSON returns is not JSON (json.Marshal reports that as an error).
+type PBadJSON struct{ P int }
+
+func (e PBadJSON) MarshalJSON() ([]byte, error) { return []byte(fmt.Sprintf(`{"p":%d,"note":"tr`, e.P)), nil }
+
 // PNamed names its own type, depending on its value (an envelope type).
 type PNamed struct {
 	P    int    `json:"p"`
@@ -116,7 +121,7 @@ func (o *pObs) OnPersistComplete(ctx context.Context, d time.Duration, err error
 var persistOptNames = []string{"beforeCtx", "before", "errh", "timeout", "obs", "substore", "after"}
 
 // persistCase builds a bus from the option order and runs a publish pattern; it returns the trace segment.
-func persistCase(order []string, kinds []string, storeKind, dir string) ([][]byte, error) {
+func persistCase(order []string, kinds []string, storeKind, dir string, salt int) ([][]byte, error) {
 	var lines [][]byte
 	var lmu sync.Mutex
 	emit := func(m map[string]any) {
@@ -132,7 +137,7 @@ func persistCase(order []string, kinds []string, storeKind, dir string) ([][]byt
 	var inner eb.EventStore
 	var cleanup func()
 	if has["store"] {
-		env, err := storedrv.NewEnv(storeKind, dir, 1, 0)
+		env, err := storedrv.NewEnv(storeKind, dir, 1, 1<<20)
 		if err != nil {
 			return nil, err
 		}
@@ -162,6 +167,8 @@ func persistCase(order []string, kinds []string, storeKind, dir string) ([][]byt
 					ok = ok && v.P == cur.p
 				case PBad:
 					ok = ok && v.P == cur.p
+				case PBadJSON:
+					ok = ok && v.P == cur.p
 				case PNamed:
 					ok = ok && v.P == cur.p
 				default:
@@ -170,7 +177,11 @@ func persistCase(order []string, kinds []string, storeKind, dir string) ([][]byt
 				emit(map[string]any{"e": "errh", "p": cur.p, "ok": ok})
 			}))
 		case "timeout":
-			opts = append(opts, eb.WithPersistenceTimeout(150*time.Millisecond))
+			if storeKind == "memory" {
+				opts = append(opts, eb.WithPersistenceTimeout(150*time.Millisecond))
+			} else { // a healthy append to SQLite or to the durable-streams server must never run into it
+				opts = append(opts, eb.WithPersistenceTimeout(20*time.Second))
+			}
 		case "obs":
 			opts = append(opts, eb.WithObservability(&pObs{emit: emit}))
 		case "substore":
@@ -215,7 +226,15 @@ func persistCase(order []string, kinds []string, storeKind, dir string) ([][]byt
 			n, saw := count()
 			emit(map[string]any{"e": "handler", "p": e.P, "saw": saw, "n": n})
 		})
+		eb.Subscribe(bus, func(e PBadJSON) {
+			n, saw := count()
+			emit(map[string]any{"e": "handler", "p": e.P, "saw": saw, "n": n})
+		})
 	}
+	eb.Subscribe(bus, func(e PBadJSON) {
+		n, saw := count()
+		emit(map[string]any{"e": "handler", "p": e.P, "saw": saw, "n": n})
+	}, eb.Async())
 	eb.Subscribe(bus, func(e PEvent) {
 		n, saw := count()
 		emit(map[string]any{"e": "handler", "p": e.P, "saw": saw, "n": n})
@@ -232,8 +251,15 @@ func persistCase(order []string, kinds []string, storeKind, dir string) ([][]byt
 	for i, k := range kinds {
 		cur = pMeta{p: i + 1, kind: k}
 		emit(map[string]any{"e": "pub", "p": cur.p, "kind": k})
-		ctx := context.WithValue(context.Background(), pKey{}, cur)
-		if k == "unenc" {
+		// a request-scoped context: cancelled as soon as the publish is over; for some publishes it also has a deadline
+		// of its own, later than any persistence timeout
+		ctx, cancel := context.WithCancel(context.WithValue(context.Background(), pKey{}, cur))
+		if (i+salt)%3 == 0 {
+			ctx, cancel = context.WithTimeout(ctx, 4*time.Second)
+		}
+		if k == "unenc" && (i+salt)%2 == 0 {
+			eb.PublishContext(bus, ctx, PBadJSON{P: cur.p})
+		} else if k == "unenc" {
 			eb.PublishContext(bus, ctx, PBad{P: cur.p, C: make(chan int)})
 		} else if cur.p%3 == 0 {
 			eb.PublishContext(bus, ctx, PNamed{P: cur.p, Kind: namedKind(cur.p)})
@@ -241,6 +267,7 @@ func persistCase(order []string, kinds []string, storeKind, dir string) ([][]byt
 			eb.PublishContext(bus, ctx, PEvent{P: cur.p, Note: "n"})
 		}
 		bus.Wait() // the asynchronous handler of this publish has run when the return is recorded
+		cancel()
 		n, saw := count()
 		emit(map[string]any{"e": "pubret", "p": cur.p, "n": n, "recok": !has["store"] || k != "ok" || saw})
 	}
@@ -300,21 +327,25 @@ func persistRuns(r *core.Run, name string, nRandom int, obsOnly bool) {
 		if obsOnly && !has["obs"] {
 			continue
 		}
+		sk := "memory"
+		if i%4 == 1 {
+			sk = "sqlite-file"
+		}
+		if i%8 == 3 {
+			sk = "durable"
+		}
 		n := 2 + rnd.IntN(6)
 		var kinds []string
 		for k := 0; k < n; k++ {
 			ks := []string{"ok", "ok", "unenc", "apperr"}
-			if has["timeout"] {
+			if has["timeout"] && sk == "memory" { // appends that hang until the persistence timeout: with the memory store only (150 ms)
+
 				ks = append(ks, "timeout")
 			}
 			kinds = append(kinds, ks[rnd.IntN(len(ks))])
 		}
 		if i%3 == 0 {
 			kinds[0] = []string{"unenc", "apperr"}[rnd.IntN(2)] // failure on the first publish of a fresh bus
-		}
-		sk := "memory"
-		if i%4 == 1 && !has["timeout"] { // a persistence timeout is only combined with the memory store: on a loaded machine a
-			sk = "sqlite-file" // healthy SQLite append could exceed it, which would be the harness' fault, not ebu's
 		}
 		label := fmt.Sprintf("%s opts=%s kinds=%s", sk, strings.Join(order, ","), strings.Join(kinds, ","))
 		type res struct {
@@ -323,7 +354,7 @@ func persistRuns(r *core.Run, name string, nRandom int, obsOnly bool) {
 		}
 		ch := make(chan res, 1)
 		go func() {
-			l, e := persistCase(order, kinds, sk, r.Work)
+			l, e := persistCase(order, kinds, sk, r.Work, i)
 			ch <- res{l, e}
 		}()
 		var lines [][]byte
